@@ -13,6 +13,7 @@ import MetapypeModel.Model.Normalize
 import MetapypeModel.Model.Evaluate
 import MetapypeModel.Model.Json
 import MetapypeModel.Model.Xml
+import MetapypeModel.Model.Import
 import MetapypeModel.Gen.Rules
 import MetapypeModel.Gen.Facts
 /-
@@ -154,6 +155,13 @@ partial def treeJson : Tree → Json
 def reasonStr : Reason → String
   | .unknown => "unknown" | .notAllowed => "notAllowed" | .invalid => "invalid"
 
+partial def getXN (j : Json) : XN :=
+  match j with
+  | .arr #[.str "c", tl] => .comment (optStr tl)
+  | .arr #[.str "e", ln, pf, ns, att, tx, tl, .arr kids] =>
+      .elem ((optStr ln).getD "") (optStr pf) (getDict ns) (getDict att) (optStr tx) (optStr tl) (kids.toList.map getXN)
+  | _ => .comment none
+
 def handle (j : Json) : Json :=
   let T := Gen.tables
   let L := Lex.lexer
@@ -259,6 +267,12 @@ def handle (j : Json) : Json :=
   | some "toxml" =>
       let t := getTree (fld j "tree")
       Json.mkObj [("general", .str (String.ofList (toXmlG t none 0))), ("eml", .str (String.ofList (toXmlE t 0)))]
+  | some "import" =>
+      let x := getXN (fld j "x")
+      let b (k : String) : Bool := match fld j k with | .bool v => v | _ => false
+      match processElement (b "clean") (b "collapse") (getStrs (fld j "literals")) x [] with
+      | some t => treeJson t
+      | none => .null
   | some "isequal" =>
       Json.bool (isEqual (getTree (fld j "a")) (getTree (fld j "b")))
   | some "tables" =>
